@@ -1194,6 +1194,12 @@ impl Check for C11 {
     fn needs_binary(&self) -> bool {
         true
     }
+    fn fuzz_families(&self, tier: Tier) -> Vec<(&'static str, u64)> {
+        // libFuzzer runs per job (16 jobs), sized from the measured speed of the instrumented build
+        // (`mutate` decodes every truncation and corruption of its input: ~17 cases/s under ASan)
+        let _ = tier;
+        vec![("random", 1_000_000), ("mutate", 1_000), ("duplicate-keys", 200_000)]
+    }
     fn families(&self, tier: Tier) -> Vec<Family<'_>> {
         let max_len = tier.pick(2, 3);
         let catalogue = reply_catalogue(tier);
